@@ -435,8 +435,8 @@ func ipow(a, b int) int {
 	r := 1
 	for i := 0; i < b; i++ {
 		r *= a
-		if r > 1<<40 {
-			return 1 << 40
+		if r > 1<<30 { // "too many to enumerate" for every caller; fits a 32-bit int
+			return 1 << 30
 		}
 	}
 	return r
